@@ -119,22 +119,22 @@ Section Grow.
       (fun s' => s' = s /\ make_layout cfg c (h_align bl) = None).
   Proof.
     intros Hv Hb Hc Hlen. unfold grow.
-    rewrite (bind_val _ _ _ _ _ (len_at cfg _ _ _ _ Hcfg Hv Hb)).
-    assert (E1 : (if release cfg then ret tt else if h_len bl <=? c then ret tt else panic) s = (Val tt, s)).
-    { destruct (release cfg); [reflexivity|]. assert (E : (h_len bl <=? c) = true) by (apply Z.leb_le; lia). rewrite E. reflexivity. }
+    assert (E1 : (if release cfg then ret tt else l0 <- len v ;; if l0 <=? c then ret tt else panic) s = (Val tt, s)).
+    { destruct (release cfg); [reflexivity|]. rewrite (bind_val _ _ _ _ _ (len_at cfg _ _ _ _ Hcfg Hv Hb)).
+      assert (E : (h_len bl <=? c) = true) by (apply Z.leb_le; lia). rewrite E. reflexivity. }
     rewrite (bind_val _ _ _ _ _ E1).
     rewrite (bind_val _ _ _ _ _ (capacity_at cfg _ _ _ _ Hcfg Hv Hb)).
-    rewrite (bind_val _ _ _ _ _ (is_default_at _ _ _ _ Hv)).
-    cbn [andb negb].
     destruct (Z.eqb_spec c (h_cap bl)) as [Ec|Ec].
-    { simpl. left. split; [assumption|reflexivity]. }
-    cbn [andb].
+    { rewrite bind_assoc. rewrite (bind_val _ _ _ _ _ (is_default_at _ _ _ _ Hv)). rewrite bind_ret.
+      cbn [negb]. simpl. left. split; [assumption|reflexivity]. }
+    rewrite bind_ret.
     destruct (make_layout cfg c (h_align bl)) as [[nsize nalign]|] eqn:Eml.
     2:{ simpl. split; reflexivity. }
     rewrite lift_opt_some. rewrite bind_ret.
     rewrite (bind_val _ _ _ _ _ (len_at cfg _ _ _ _ Hcfg Hv Hb)).
-    rewrite (bind_val _ _ _ _ _ (vec_handle_at _ _ _ _ Hv)).
+    rewrite (bind_val _ _ _ _ _ (is_default_at _ _ _ _ Hv)).
     pose proof (bo_layout _ _ Hb) as Hlay. rewrite Hlay. rewrite lift_opt_some. rewrite bind_assoc. rewrite bind_ret.
+    rewrite bind_assoc. rewrite (bind_val _ _ _ _ _ (vec_handle_at _ _ _ _ Hv)).
     cbn [fst snd].
     pose proof (is_pow2_pos _ (bo_pow2 _ _ Hb)) as Hapos.
     destruct Hcfg as ((Hesz & _) & _).
@@ -210,16 +210,19 @@ Section Grow.
     assert (Hl : len v s = (Val 0, s)) by (unfold len; rewrite (bind_val _ _ _ _ _ Hh); reflexivity).
     assert (Hcap : capacity v s = (Val 0, s)) by (unfold capacity; rewrite (bind_val _ _ _ _ _ Hh); reflexivity).
     assert (Hd : is_default v s = (Val true, s)) by (unfold is_default; rewrite (bind_val _ _ _ _ _ Hh); reflexivity).
-    rewrite (bind_val _ _ _ _ _ Hl).
-    assert (E1 : (if release cfg then ret tt else if 0 <=? c then ret tt else panic) s = (Val tt, s)).
-    { destruct (release cfg); [reflexivity|]. assert (E : (0 <=? c) = true) by (apply Z.leb_le; lia). rewrite E. reflexivity. }
+    assert (E1 : (if release cfg then ret tt else l0 <- len v ;; if l0 <=? c then ret tt else panic) s = (Val tt, s)).
+    { destruct (release cfg); [reflexivity|]. rewrite (bind_val _ _ _ _ _ Hl).
+      assert (E : (0 <=? c) = true) by (apply Z.leb_le; lia). rewrite E. reflexivity. }
     rewrite (bind_val _ _ _ _ _ E1).
-    rewrite (bind_val _ _ _ _ _ Hcap). rewrite (bind_val _ _ _ _ _ Hd).
-    cbn [andb].
+    rewrite (bind_val _ _ _ _ _ Hcap).
+    assert (Hearly : (if c =? 0 then dflt <- is_default v ;; ret (negb (if dflt then max_align cfg <? a else false)) else ret false) s
+                     = (Val ((c =? 0) && negb (max_align cfg <? a)), s)).
+    { destruct (c =? 0); [|reflexivity]. rewrite (bind_val _ _ _ _ _ Hd). reflexivity. }
+    rewrite (bind_val _ _ _ _ _ Hearly).
     destruct (Z.eqb_spec c 0) as [Ec|Ec]; destruct (Z.ltb_spec (max_align cfg) a) as [La|La]; cbn [andb negb].
     2:{ simpl. left. repeat split; [assumption|lia]. }
     all: destruct (make_layout cfg c a) as [[nsize nalign]|] eqn:Eml; [|simpl; split; reflexivity].
-    all: rewrite lift_opt_some; rewrite bind_ret; rewrite (bind_val _ _ _ _ _ Hl); rewrite (bind_val _ _ _ _ _ Hh).
+    all: rewrite lift_opt_some; rewrite bind_ret; rewrite (bind_val _ _ _ _ _ Hl); rewrite (bind_val _ _ _ _ _ Hd).
     all: pose proof (is_pow2_pos _ Hp) as Hapos; destruct Hcfg as ((Hesz & _) & _).
     all: pose proof (make_layout_some cfg c a nsize nalign Hc ltac:(lia) Hapos Eml) as (-> & Hp2 & Hmax & off & Hoff & H24 & Hmod & Hroom & Hnmod).
     all: destruct (do_alloc_spec s nsize a) as (r & s1 & Hre & Hv1 & Hs1 & Hcase); rewrite (bind_val _ _ _ _ _ Hre).
